@@ -336,7 +336,7 @@ def Fn.nestingDepth : Fn → Nat
   | .selectCycle => 4
   | .jsonify => 2
   | .populateConvertCycle => 2
-  | .prettyWriteCycle => 4
+  | .prettyWriteCycle => 5
   | _ => 1
 
 /-- depth of the model of site `f`, in the formulation selected by `cls`, on the harness family of
